@@ -6,6 +6,7 @@
 #include "gen.hpp"
 #include <ucontext.h>
 #include <sys/mman.h>
+#include <unordered_map>
 using namespace vf;
 
 static const lib::Registry* REG;
@@ -27,21 +28,54 @@ static std::string freed_blocks_wiped(const char* call) {
         return std::string("during ") + call + " a block reached the injected free without having been wiped by the injected wipe function (content " + vf::hex(k.freed[g_freed_seen].content).substr(0, 80) + "...)";
     return "";
 }
+// writable static storage of the executable (.data/.bss; the library is linked statically, so its own statics live here).
+// The harness keeps every copy of secret material on the heap or in thread-local storage, so a secret pattern found
+// here was put there by the library.
+static std::vector<std::pair<uint8_t*, size_t>> static_ranges() {
+    static std::vector<std::pair<uint8_t*, size_t>> r; static bool init = false; if (init) return r; init = true;
+    char exe[512]; ssize_t n = readlink("/proc/self/exe", exe, sizeof exe - 1); if (n <= 0) return r; exe[n] = 0;
+    FILE* f = fopen("/proc/self/maps", "r"); if (!f) return r; char line[1024]; unsigned long last_end = 0; bool last_exe = false;
+    while (fgets(line, sizeof line, f)) {
+        unsigned long a, b; char perms[8] = {0}, path[600] = {0}; int got = sscanf(line, "%lx-%lx %7s %*s %*s %*s %599[^\n]", &a, &b, perms, path);
+        if (got < 3) continue; bool rw = perms[0] == 'r' && perms[1] == 'w'; bool is_exe = got >= 4 && strcmp(path, exe) == 0; bool anon = got < 4 || path[0] == 0;
+        if (rw && is_exe) { r.emplace_back((uint8_t*)a, (size_t)(b - a)); last_exe = true; last_end = b; }
+        else if (rw && anon && last_exe && a == last_end) { r.emplace_back((uint8_t*)a, (size_t)(b - a)); last_end = b; }   // .bss continuation
+        else last_exe = false;
+    }
+    fclose(f); return r;
+}
 struct Pat { std::string what; std::string bytes; size_t window; int idxw = 0; };   // idxw: width of one index for index-array patterns
+static bool window_ok(const Pat& p, size_t off);
+static std::vector<Pat> G_ALL;   // every pattern of the current case, for the one static-storage scan at its end
+// one pass over the writable static storage: every 8-byte value is looked up in a table of the patterns' window prefixes
+static std::string scan_static(const std::vector<Pat>& pats) {
+    std::unordered_map<uint64_t, std::pair<const Pat*, size_t>> tab;
+    for (auto& p : pats) { if (p.bytes.size() < p.window) continue; for (size_t off = 0; off + p.window <= p.bytes.size(); off++) { if (!window_ok(p, off)) continue; uint64_t v; memcpy(&v, p.bytes.data() + off, 8); tab.emplace(v, std::make_pair(&p, off)); } }
+    if (tab.empty()) return "";
+    for (auto& rg : static_ranges()) for (size_t i = 0; i + 8 <= rg.second; i++) { uint64_t v; memcpy(&v, rg.first + i, 8); auto it = tab.find(v); if (it == tab.end()) continue;
+        const Pat& p = *it->second.first; size_t off = it->second.second; if (i + p.window <= rg.second && memcmp(rg.first + i, p.bytes.data() + off, p.window) == 0)
+            return std::to_string(p.window) + " consecutive bytes of " + p.what + " (offset " + std::to_string(off) + ") are held in static storage of the library after the calls returned (writable data segment, offset " + std::to_string(i) + ")"; }
+    return "";
+}
 // search the used part of the dead stack for any `window` consecutive bytes of each pattern
 static std::string scan(const std::vector<Pat>& pats, const char* call) {
     { std::string fb = freed_blocks_wiped(call); if (!fb.empty()) return fb; }
-    size_t lo = 0; while (lo < STKSZ && STK[lo] == 0xA5) lo++; if (lo >= STKSZ) return ""; lo &= ~(size_t)63;
+    for (auto& p : pats) if (G_ALL.size() < 400) G_ALL.push_back(p);
+    size_t lo = 0; while (lo < STKSZ && STK[lo] == 0xA5) lo++; if (lo >= STKSZ) lo = STKSZ - 64; lo &= ~(size_t)63;
     for (auto& p : pats) { if (p.bytes.size() < p.window) continue;
         for (size_t off = 0; off + p.window <= p.bytes.size(); off++) {
             const uint8_t* w = (const uint8_t*)p.bytes.data() + off;
-            // entropy guard, so that a match cannot be a coincidence: byte patterns need >= 5 distinct values per 8 bytes; index windows need 4 distinct indices >= 16
-            if (p.idxw) { if (off % (size_t)p.idxw) continue; uint64_t v[4]; bool ok = true; for (int i = 0; i < 4; i++) { v[i] = 0; memcpy(&v[i], w + i * p.idxw, (size_t)p.idxw); if (v[i] < 16) ok = false; for (int j = 0; j < i; j++) if (v[j] == v[i]) ok = false; } if (!ok) continue; }
-            else { bool seen[256] = {false}; int distinct = 0; for (size_t i = 0; i < p.window; i++) if (!seen[w[i]]) { seen[w[i]] = true; distinct++; } if (distinct * 8 < (int)p.window * 5) continue; }
+            if (!window_ok(p, off)) continue;
             void* f = memmem(STK + lo, STKSZ - lo, w, p.window);
             if (f) return std::string("after ") + call + " returned, " + std::to_string(p.window) + " consecutive bytes of " + p.what + " (offset " + std::to_string(off) + ") remain on the dead stack, " + std::to_string((STK + STKSZ) - (uint8_t*)f) + " bytes below the stack top";
         } }
     return "";
+}
+// entropy guard, so that a match cannot be a coincidence: byte patterns need >= 5 distinct values per 8 bytes; index windows need 4 distinct indices >= 16
+static bool window_ok(const Pat& p, size_t off) {
+    const uint8_t* w = (const uint8_t*)p.bytes.data() + off;
+    if (p.idxw) { if (off % (size_t)p.idxw) return false; uint64_t v[4]; for (int i = 0; i < 4; i++) { v[i] = 0; memcpy(&v[i], w + i * p.idxw, (size_t)p.idxw); if (v[i] < 16) return false; for (int j = 0; j < i; j++) if (v[j] == v[i]) return false; } return true; }
+    bool seen[256] = {false}; int distinct = 0; for (size_t i = 0; i < p.window; i++) if (!seen[w[i]]) { seen[w[i]] = true; distinct++; } return distinct * 8 >= (int)p.window * 5;
 }
 static std::string idx_bytes(const std::vector<unsigned>& v, int width) { std::string s; for (unsigned x : v) { uint64_t y = x; s.append((const char*)&y, (size_t)width); } return s; }
 static void add_indices(std::vector<Pat>& pats, const std::vector<unsigned>& idx, const std::string& what) {
@@ -55,7 +89,7 @@ static std::vector<unsigned> indices_of(const lib::LangEntry& le, const std::str
 
 // case: secret(19, high entropy) birthday ufeat lang coin pw(hex) mask(hex32) scenario
 static std::string oracle(const Case& c) {
-    deps::Kit& k = deps::kit(0); k.reset_all(); g_freed_seen = 0; Evidence& ev = W().ev; k.mz_mode = deps::MZ_MARK; polyseed_enable_features(7);
+    deps::Kit& k = deps::kit(0); k.reset_all(); g_freed_seen = 0; G_ALL.clear(); Evidence& ev = W().ev; k.mz_mode = deps::MZ_MARK; polyseed_enable_features(7);
     const lib::LangEntry* le = REG->by_name(c.get("lang")); if (!le) return "";
     std::string sec = c.bytes("secret"); sec.resize(19, '\x5a'); std::string sec150 = sec; sec150[18] &= 0x3F; unsigned coin = (unsigned)c.u("coin") & 2047u, uf = (unsigned)c.u("ufeat") & 7u;
     std::string pw = c.bytes("pw"); pw = pw.substr(0, pw.find('\0')); std::string mask = c.bytes("mask"); mask.resize(32, '\x77');
@@ -68,7 +102,7 @@ static std::string oracle(const Case& c) {
     if (st != 0) return std::string("create returned ") + model::status_name(st);
     secret_pats(sec150, "the new seed's secret"); secret_pats(sec, "the random bytes");
     // coefficient vector of the seed (language-independent "word indices"), with and without the coin applied
-    static polyseed_str out; static size_t outlen;
+    static char* out = (char*)malloc(POLYSEED_STR_SIZE); static size_t outlen;   /* heap, not static storage: see static_ranges() */
     on_stack([&]() { outlen = polyseed_encode(seed, le->lang, (polyseed_coin)coin, out); });
     std::string phrase(out, strnlen(out, POLYSEED_STR_SIZE)); std::string pn = model::nfkd(phrase);
     std::vector<unsigned> shown = indices_of(*le, pn); std::vector<unsigned> data = shown; if (data.size() == 16) data[1] ^= coin;
@@ -118,14 +152,14 @@ static std::string oracle(const Case& c) {
         }
     }
     // ---- store / load (every exit path) / keygen / getters
-    static polyseed_storage stg; on_stack([&]() { polyseed_store(seed, stg); }); msg = scan(P, "store"); if (!msg.empty()) return msg; ev.count("call:store");
+    static uint8_t* stg = (uint8_t*)malloc(32); on_stack([&]() { polyseed_store(seed, stg); }); msg = scan(P, "store"); if (!msg.empty()) return msg; ev.count("call:store");
     {
         lib::Image img; memcpy(img.data(), stg, 32); lib::Image variants[5] = {img, img, img, img, img}; variants[1][30] ^= 1; variants[2][(scenario & 4) ? 31 : 28] |= 0x80; variants[3][29] = 0; const char* labels[5] = {"load (success)", "load (checksum error)", "load (format error, padding or footer)", "load (format error, byte 29)", "load (allocation failure)"};
         for (int i : {0, 1 + scenario % 4}) { static polyseed_data* l; static int lst; l = nullptr; if (i == 4) k.fail_all = true; on_stack([&]() { lst = polyseed_load(variants[i].data(), &l); }); k.fail_all = false;
             std::vector<Pat> Q = P; if (data.size() == 16) add_indices(Q, data, "the polynomial coefficients"); msg = scan(Q, labels[i]); if (lst == 0) polyseed_free(l); if (!msg.empty()) return msg; ev.count(std::string("exit:load/") + model::status_name(lst)); }
         if (uf) { polyseed_enable_features(0); static polyseed_data* l; static int lst; l = nullptr; on_stack([&]() { lst = polyseed_load(img.data(), &l); }); polyseed_enable_features(7); std::vector<Pat> Q = P; if (data.size() == 16) add_indices(Q, data, "the polynomial coefficients"); msg = scan(Q, "load (unsupported features)"); if (lst == 0) polyseed_free(l); if (!msg.empty()) return msg; ev.count(std::string("exit:load/") + model::status_name(lst)); }
     }
-    { static uint8_t key[64]; on_stack([&]() { polyseed_keygen(seed, (polyseed_coin)coin, 32, key); }); msg = scan(P, "keygen"); if (!msg.empty()) return msg; ev.count("call:keygen"); }
+    { static uint8_t* key = (uint8_t*)malloc(64); on_stack([&]() { polyseed_keygen(seed, (polyseed_coin)coin, 32, key); }); msg = scan(P, "keygen"); if (!msg.empty()) return msg; ev.count("call:keygen"); }
     { static uint64_t bd; static unsigned ft; static int en; on_stack([&]() { bd = polyseed_get_birthday(seed); ft = polyseed_get_feature(seed, 7); en = polyseed_is_encrypted(seed); }); msg = scan(P, "getters"); if (!msg.empty()) return msg; }
     // ---- crypt
     {
@@ -145,6 +179,7 @@ static std::string oracle(const Case& c) {
         if (!((uint8_t*)mc.ptr <= (uint8_t*)p && (uint8_t*)mc.ptr + mc.len >= (uint8_t*)p + fr.size)) return "the wipe call immediately before free does not cover the whole seed block";
         ev.count("call:free");
     }
+    { std::string sm = scan_static(G_ALL); if (!sm.empty()) return sm; ev.count("static-storage-scanned"); }
     ev.eval(); ev.nt(c); ev.count("lang:" + le->name_en); ev.sample(le->name_en, c);
     return "";
 }
